@@ -34,6 +34,9 @@ PROPS = {
                   [("core", 5000, 150000), ("utf8", 1000, 30000), ("throw", 1000, 30000), ("lr", 1000, 20000)], oracles=[orc_c12]),
     "C14": h1prop("PigeonVerif.Properties.C14", P(["val", "pos", "noerr", "errs", "trace_blks"]),
                   [("throw", 6000, 200000)]),
+    "C15": h1prop("PigeonVerif.Properties.C15", P(["val", "pos", "errs", "mf"]),
+                  [("core", 6000, 200000), ("utf8", 2000, 50000), ("blocks", 1000, 20000)],
+                  twins=twins_c15, twin_rel=rel_c15, variants=[v for v in core.ALL_VARIANTS if v.endswith("b1")]),
     "C16": h1prop("PigeonVerif.Properties.C16", P(["val", "cnt", "errs"]),
                   [("budget", 6000, 200000), ("memo", 1000, 30000)], oracles=[orc_c16], phase2=phase2_c16),
     "C17": h1prop("PigeonVerif.Properties.C17", P(["val", "errs", "pos", "trace_ctx"]),
